@@ -45,6 +45,7 @@ DOCS = [
     '<r><i k="1"/><i k="01"/></r>',                                                                        # distinct untyped key values, equal as integers
     '<r %s><i k="1"/><note xmlns="urn:other" xsi:type="xs:string">x</note></r>' % XSI.replace('xmlns:xsi', 'xmlns:xs="http://www.w3.org/2001/XMLSchema" xmlns:xsi'),   # undeclared element with xsi:type under the lax wildcard
     '<r %s><i k="1"/><note xmlns="urn:other" xsi:nil="true"/></r>' % XSI,                                  # the same undeclared tag, nilled
+    '<r %s><i k="1"/><note xmlns="urn:other" xsi:type="xs:string">x</note></r>' % XSI.replace('xmlns:xsi', 'xmlns:xs="urn:not-the-xsd-namespace" xmlns:xsi'),   # the same xsi:type string, its prefix bound to another namespace
 ]
 # Template 2: one global element referenced under two parents, each parent with its own key reaching content that exists
 # only through xsi:type (the selector widening recorded on the shared declaration must not depend on who came first).
@@ -67,11 +68,14 @@ DOCS2 = [
     '<r %s><A><g/></A><B><g xsi:type="T1"><sub a="3"/></g></B></r>' % XSI,           # valid
     '<r><A><g/></A></r>',                                                             # valid, no xsi:type
 ]
-OPS = ["is_valid", "validate", "iter_errors", "decode-lax", "decode-strict", "to_objects", "iter_errors-partial", "encode"]
+OPS = ["is_valid", "validate", "iter_errors", "decode-lax", "decode-strict", "to_objects", "iter_errors-partial", "encode",
+       "iter_errors-max_depth1", "is_valid-lazy", "decode-max_depth2"]
 
 
 def configure(cfg):
     CFG["fixed"] = {}
+    CFG["docsel"] = None
+    CFG["tpl"] = None
     CFG.update(cfg)
 
 
@@ -113,6 +117,12 @@ def _run(schema, op, doc):
         elif op == "encode":
             data, _ = schema.decode(doc, validation='lax')
             schema.encode(data, validation='lax')
+        elif op == "iter_errors-max_depth1":
+            list(schema.iter_errors(doc, max_depth=1))          # a depth-limited run
+        elif op == "is_valid-lazy":
+            schema.is_valid(xmlschema.XMLResource(doc, lazy=True))
+        elif op == "decode-max_depth2":
+            schema.decode(doc, validation='lax', max_depth=2)
     except XMLSchemaException:
         pass
 
@@ -128,8 +138,14 @@ def _probe(schema, doc):
     return not errs, errs, data, [_norm_reason(e.reason) for e in derrs]
 
 
+THOROUGH_OPS = ("is_valid", "decode-lax", "iter_errors-partial", "decode-max_depth2")
+THOROUGH_DOCS = [1, 3, 5, 6, 7, 8, 9, 10]
+
+
 def _docs():
-    return DOCS2 if CFG.get("tpl") == 2 else DOCS
+    docs = DOCS2 if CFG.get("tpl") == 2 else DOCS
+    sel = CFG.get("docsel")
+    return [docs[i] for i in sel] if sel else docs
 
 
 def pre_hist(fn, **kw):
@@ -201,7 +217,7 @@ def obligations(tier, seed):
     out = []
     for version in ("1.0", "1.1"):
         for o0 in range(len(OPS)):
-            if quick and not (OPS[o0] in ("is_valid", "decode-lax", "to_objects", "validate", "iter_errors-partial") and (version == "1.0" or o0 in (0, 3))):
+            if quick and not (OPS[o0] in ("is_valid", "decode-lax", "to_objects", "validate", "iter_errors-partial", "decode-max_depth2", "is_valid-lazy") and (version == "1.0" or o0 in (0, 3))):
                 continue
             if quick:
                 # one obligation per first operation: first document, second step and probe symbolic
@@ -210,13 +226,22 @@ def obligations(tier, seed):
                             "config": {"version": version, "steps": 1, "fixed": {"o0": o0}}, "timeout": 600, "twin_timeout": 40,
                             "bound": "histories of 1 step (%s on any of %d documents), every probe document" % (OPS[o0], len(DOCS))})
             else:
-                out.append({"name": "history/%s/first=%s" % (version, OPS[o0]), "fn": "h_history", "pre": "pre_hist",
-                            "args": [["d0", "int"], ["o1", "int"], ["d1", "int"], ["p", "int"]],
-                            "config": {"version": version, "steps": 2, "fixed": {"o0": o0}}, "timeout": 3000, "twin_timeout": 40,
-                            "bound": "histories of 2 steps (first op %s), %d ops x %d documents, every probe document" % (OPS[o0], len(OPS), len(DOCS))})
-        for o0 in ((0, 3) if quick else range(len(OPS))):
+                # two steps: both operations fixed per obligation (a selection of stateful ones), documents and probe symbolic
+                # over the documents that leave state behind (xsi:type, identity, wildcard cache)
+                if OPS[o0] not in THOROUGH_OPS:
+                    continue
+                for o1 in range(len(OPS)):
+                    if OPS[o1] not in THOROUGH_OPS:
+                        continue
+                    out.append({"name": "history/%s/%s+%s" % (version, OPS[o0], OPS[o1]), "fn": "h_history", "pre": "pre_hist",
+                                "args": [["d0", "int"], ["d1", "int"], ["p", "int"]],
+                                "config": {"version": version, "steps": 2, "fixed": {"o0": o0, "o1": o1}, "docsel": THOROUGH_DOCS}, "timeout": 3000, "twin_timeout": 40,
+                                "bound": "histories of 2 steps (%s then %s) over documents %r, probes from the same documents" % (OPS[o0], OPS[o1], THOROUGH_DOCS)})
+        for o0 in ((0, 3, 10) if quick else [i for i, o in enumerate(OPS) if o in THOROUGH_OPS]):
+            if quick and version == "1.1" and o0 == 10:
+                continue
             out.append({"name": "history-shared-ref/%s/first=%s" % (version, OPS[o0]), "fn": "h_history", "pre": "pre_hist",
-                        "args": [["d0", "int"], ["p", "int"]] if quick else [["d0", "int"], ["o1", "int"], ["d1", "int"], ["p", "int"]],
-                        "config": {"version": version, "steps": 1 if quick else 2, "fixed": {"o0": o0}, "tpl": 2}, "timeout": 600 if quick else 3000, "twin_timeout": 40,
+                        "args": [["d0", "int"], ["p", "int"]] if quick else [["d0", "int"], ["d1", "int"], ["p", "int"]],
+                        "config": {"version": version, "steps": 1 if quick else 2, "fixed": {"o0": o0, "o1": 0}, "tpl": 2}, "timeout": 600 if quick else 3000, "twin_timeout": 40,
                         "bound": "template 2 (a global element referenced under two parents with their own keys into xsi:type'd content): histories of %d step(s) over %d documents, every probe" % (1 if quick else 2, len(DOCS2))})
     return out
